@@ -2,7 +2,7 @@
    the log records, the %-formatting lemma, outcome independence, and the checker over the
    regenerated logging-site inventory (Lib/LogFacts.v types) with its soundness lemmas. *)
 From Coq Require Import ZArith List Bool Lia.
-From Verif Require Import Lib.Sx Lib.PyStr Lib.PyStr4 Gen.Unicode
+From Verif Require Import Lib.Sx Lib.PyStr Lib.PyStr4 Lib.LogFacts Gen.Unicode
      Proofs.PyStrFacts Model.Framing Proofs.Framing Model.LogCensor.
 Import ListNotations.
 Open Scope Z_scope.
@@ -345,21 +345,93 @@ Proof.
   destruct prefix as [|x pr]; [congruence|]. cbn [app]. cbn [app] in H. rewrite H. reflexivity.
 Qed.
 
-Lemma client_login_loop_hides fuel prefix k p1 p2 account code replies :
-  prefix <> [] -> k = Z.of_nat (length prefix) -> length p1 = length p2 ->
-  client_login_loop fuel prefix k p1 account code replies
-  = client_login_loop fuel prefix k p2 account code replies.
+(* ---- Client.login as a program (Lib/LogFacts.v login_prog, regenerated from the source): the
+   condition under which its log is independent of the password.  Every branch that appends the
+   password binds censor_after, in that very branch, to the length of its own non-empty literal
+   prefix; the command sent before the loop (never censored) does not carry the password.
+   Nothing is asked of the other branches, of the reset or of the initial value. *)
+Definition branch_ok (b : login_branch) : bool :=
+  match lb_arg b with
+  | ArgPassword =>
+      negb (match lb_prefix b with [] => true | _ => false end)
+      && match lb_censor b with
+         | Some k => k =? Z.of_nat (length (lb_prefix b))
+         | None => false
+         end
+  | _ => true
+  end.
+
+Definition login_prog_ok (P : login_prog) : bool :=
+  match lb_arg (lp_first P) with ArgPassword => false | _ => true end
+  && forallb branch_ok (lp_branches P).
+
+Lemma branch_command_hides b user p1 p2 account c0 :
+  branch_ok b = true -> length p1 = length p2 ->
+  client_command_records (branch_command b user p1 account)
+                         (match lb_censor b with Some v => v | None => c0 end)
+  = client_command_records (branch_command b user p2 account)
+                           (match lb_censor b with Some v => v | None => c0 end).
 Proof.
-  intros Hne Hk Hlen. revert code replies.
-  induction fuel as [|f IH]; intros code replies; [reflexivity|].
-  cbn [client_login_loop]. destruct (matches T33x code); [|reflexivity].
-  destruct (text_eqb code T331).
-  - rewrite (client_command_records_hides prefix k p1 p2 Hne Hk Hlen).
-    destruct replies as [|r rs]; [reflexivity|].
-    destruct (any_matches [T230; T33x] (code_of_reply r)); [rewrite IH|]; reflexivity.
-  - destruct (text_eqb code T332); [|reflexivity].
-    destruct replies as [|r rs]; [reflexivity|].
-    destruct (any_matches [T230; T33x] (code_of_reply r)); [rewrite IH|]; reflexivity.
+  intros Hok Hlen. unfold branch_ok in Hok. unfold branch_command.
+  destruct (lb_arg b); cbn [login_arg_text]; try reflexivity.
+  apply andb_true_iff in Hok. destruct Hok as [Hne Hk].
+  destruct (lb_censor b) as [k|]; [|discriminate].
+  apply Z.eqb_eq in Hk.
+  assert (Hne' : lb_prefix b <> []) by (destruct (lb_prefix b); [discriminate|congruence]).
+  exact (client_command_records_hides (lb_prefix b) k p1 p2 Hne' Hk Hlen).
+Qed.
+
+Lemma find_branch_ok bs code b :
+  forallb branch_ok bs = true -> find_branch bs code = Some b -> branch_ok b = true.
+Proof.
+  induction bs as [|x r IH]; cbn [find_branch forallb]; intros Hall Hf; [discriminate|].
+  apply andb_true_iff in Hall. destruct Hall as [Hx Hr].
+  destruct (text_eqb code (lb_code x)); [inversion Hf; subst; exact Hx | exact (IH Hr Hf)].
+Qed.
+
+Lemma command_then_ext expected cmd1 cmd2 c lines k1 k2 :
+  client_command_records cmd1 c = client_command_records cmd2 c ->
+  (forall code rest, k1 code rest = k2 code rest) ->
+  command_then expected cmd1 c lines k1 = command_then expected cmd2 c lines k2.
+Proof.
+  intros Hc Hk. unfold command_then. rewrite Hc.
+  destruct (response_records lines) as [recs [[code rest]|]]; [|reflexivity].
+  rewrite Hk. reflexivity.
+Qed.
+
+Lemma client_login_loop_hides fuel P user p1 p2 account censor code lines :
+  forallb branch_ok (lp_branches P) = true -> length p1 = length p2 ->
+  client_login_loop fuel P user p1 account censor code lines
+  = client_login_loop fuel P user p2 account censor code lines.
+Proof.
+  intros Hok Hlen. revert censor code lines.
+  induction fuel as [|f IH]; intros censor code lines; [reflexivity|].
+  cbn [client_login_loop]. destruct (matches (lp_loop_mask P) code); [|reflexivity].
+  destruct (find_branch (lp_branches P) code) as [b|] eqn:Hf; [|reflexivity].
+  apply command_then_ext.
+  - exact (branch_command_hides b user p1 p2 account _ (find_branch_ok _ _ _ Hok Hf) Hlen).
+  - intros code' rest. apply IH.
+Qed.
+
+(* THE client theorem: for every login program whose password branches censor from the end of
+   their own prefix, every user name, account, pair of passwords of equal length and EVERY script
+   of reply lines the server may send (any codes, any order, multi-line replies, garbage, early
+   EOF), the records of logger aioftp.client during login() are equal. *)
+Theorem client_login_run_hides_password P user p1 p2 account lines :
+  login_prog_ok P = true -> length p1 = length p2 ->
+  client_login_run P user p1 account lines = client_login_run P user p2 account lines.
+Proof.
+  intros Hok Hlen. unfold login_prog_ok in Hok. apply andb_true_iff in Hok. destruct Hok as [H1 Hbs].
+  unfold client_login_run. apply command_then_ext.
+  - unfold branch_command. destruct (lb_arg (lp_first P)); [reflexivity|discriminate|reflexivity].
+  - intros code rest. apply client_login_loop_hides; assumption.
+Qed.
+
+Lemma std_login_prog_ok prefix k :
+  prefix <> [] -> k = Z.of_nat (length prefix) -> login_prog_ok (std_login_prog prefix k) = true.
+Proof.
+  intros Hne Hk. unfold login_prog_ok, std_login_prog, branch_ok. cbn.
+  destruct prefix; [congruence|]. cbn. rewrite andb_true_r. apply Z.eqb_eq. exact Hk.
 Qed.
 
 Theorem client_login_records_hide_password prefix k user p1 p2 account replies :
@@ -368,9 +440,29 @@ Theorem client_login_records_hide_password prefix k user p1 p2 account replies :
   = client_login_records prefix k user p2 account replies.
 Proof.
   intros Hne Hk Hlen. unfold client_login_records.
-  destruct replies as [|r rs]; [reflexivity|].
-  destruct (any_matches [T230; T33x] (code_of_reply r)); [|reflexivity].
-  rewrite (client_login_loop_hides _ prefix k p1 p2 account _ rs Hne Hk Hlen). reflexivity.
+  exact (client_login_run_hides_password _ user p1 p2 account _ (std_login_prog_ok prefix k Hne Hk) Hlen).
+Qed.
+
+(* the obligation is not vacuous: the program that binds censor_after once, before the loop, from
+   the first reply (modelled here by its value on a 332 first reply: None, no reset, no binding in
+   the branches) logs the password when the server answers USER with 332 and ACCT with 331 *)
+Definition carried_censor_prog : login_prog := {|
+  lp_first := lp_first (std_login_prog [80; 65; 83; 83; 32] 5);
+  lp_expected := [T230; T33x]; lp_loop_mask := T33x;
+  lp_init_censor := Some 0; lp_reset := None;
+  lp_branches := [ {| lb_code := T331; lb_prefix := [80; 65; 83; 83; 32]; lb_arg := ArgPassword; lb_censor := None |};
+                   {| lb_code := T332; lb_prefix := CMD_ACCT_; lb_arg := ArgAccount; lb_censor := None |} ]
+|}.
+
+Lemma carried_censor_leaks :
+  login_prog_ok carried_censor_prog = false /\
+  exists p1 p2 lines, length p1 = length p2 /\
+    client_login_run carried_censor_prog [117] p1 [97] lines
+    <> client_login_run carried_censor_prog [117] p2 [97] lines.
+Proof.
+  split; [reflexivity|].
+  exists [120], [121], [[51; 51; 50; 32; 97; 13; 10]; [51; 51; 49; 32; 112; 13; 10]; [50; 51; 48; 32; 111; 13; 10]].
+  split; [reflexivity|]. vm_compute. congruence.
 Qed.
 
 (* Client.login against the modelled server: the records of BOTH loggers are the same for two
